@@ -328,4 +328,24 @@ def scanOps (s : Slots) (pstart pend : Nat) : List (Nat × Op) :=
 def scanPs (s : Slots) (pstart pend : Nat) : Slots :=
   (s.drop (min pstart s.length)).take (min pend s.length - min pstart s.length)
 
+/-! ## naive specification of the sub-variable branch of `mutate_subsection_ops` -/
+
+/-- the op touches one of the listed variables -/
+def sharesVar (vars : List Nat) (op : Op) : Bool := op.vars.any (fun v => vars.contains v)
+
+/-- positions `p, p+1, …, p+k-1` of the naive slot array in order: the callback is asked at every
+occupied slot whose op touches a listed variable (it sees the canonical container of the current slots,
+the op and the position) and its answer is written back -/
+def subOpsLoopA {τ : Type} (nv : Nat) (nb : Option Nat) (vars : List Nat)
+    (f : FastOps → Op → Nat → τ → Option (Option Op) × τ) : Nat → Nat → Slots → τ → Slots × τ
+  | _, 0, s, t => (s, t)
+  | p, k + 1, s, t =>
+    match slotAt s p with
+    | some op =>
+      if sharesVar vars op then
+        let r := f (canon nv nb s) op p t
+        subOpsLoopA nv nb vars f (p + 1) k (writeA s p r.1) r.2
+      else subOpsLoopA nv nb vars f (p + 1) k s t
+    | none => subOpsLoopA nv nb vars f (p + 1) k s t
+
 end Qmc
